@@ -673,12 +673,12 @@ theorem invA_timerFire (g : Cfg) (s : S) (hi : InvA g s) : InvA g (timerFire s) 
 theorem invA_step (g : Cfg) (s : S) (op : Op) (hd : InvD g s) (hi : InvA g s)
     (htp : s.tearPending = true → s.closed = true) : InvA g (step g s op) := by
   cases op with
-  | write b k => exact invA_write g s b k hd hi
-  | writev bs k => exact invA_writev g s bs k hd hi
-  | sendfile off len ks => exact invA_sendfile g s off len ks hi
-  | register => exact invA_register g s hi
-  | registerDial => exact invA_registerDial g s hi
-  | evTake o i e ks => exact invA_evTake g s o i e ks hi
+  | write b ks => exact (invA_write g s b _ hd hi).timer (D_ghost _ _ _) (E_ghost _ _ _)
+  | writev bs ks => exact (invA_writev g s bs _ hd hi).timer (D_ghost _ _ _) (E_ghost _ _ _)
+  | sendfile off len ks => exact (invA_sendfile g s off len ks hi).timer (D_ghost _ _ _) (E_ghost _ _ _)
+  | register => exact (invA_register g s hi).timer (D_ghost _ _ _) (E_ghost _ _ _)
+  | registerDial => exact (invA_registerDial g s hi).timer (D_ghost _ _ _) (E_ghost _ _ _)
+  | evTake o i e ks => exact (invA_evTake g s _ i e ks hi).timer (D_ghost _ _ _) (E_ghost _ _ _)
   | evEnd => exact invA_evEnd g s hi
   | flipClosed => exact invA_flipClosed g s hi
   | teardown => exact invA_teardown hi htp
